@@ -47,10 +47,11 @@ class Mat:
 
 
 class Machine:
-    def __init__(self, env, fuel=20000):
+    def __init__(self, env, fuel=20000, fns=None):
         self.env = dict(env)
         self.writes = []       # (matrix name, linear index, value)
         self.fuel = fuel
+        self.fns = fns or {}   # optional: name -> syn item of free helper functions that may be called (executed with the same write log)
 
     # ---------------- expressions
     def E(self, e, d=0):
@@ -139,6 +140,23 @@ class Machine:
             if last in ("max", "min") and len(e[2]) == 2:
                 a, b = r(e[2][0]), r(e[2][1])
                 return max(a, b) if last == "max" else min(a, b)
+            if last in self.fns and (f == last or f in ("self::" + last, "Self::" + last, "super::" + last)):
+                # a private helper function extracted from the body: executed with its parameters bound to the arguments
+                hit = self.fns[last]
+                params = [p[0] for p in hit["sig"]["inputs"] if p and p[0] != "self"]
+                if len(params) != len(e[2]):
+                    raise NoEval("call " + f)
+                args = [r(a) for a in e[2]]
+                sub = Machine({k: v for k, v in self.env.items() if k.startswith("$")}, fuel=self.fuel, fns=self.fns)
+                sub.writes = self.writes
+                for p_, v_ in zip(params, args):
+                    sub.bind(p_, v_)
+                try:
+                    out = sub.block(hit["body"])
+                except Return as ret_:
+                    out = ret_.value
+                self.fuel = sub.fuel
+                return out
             raise NoEval("call " + f)
         if t == "mcall":
             v = r(e[1])
